@@ -20,15 +20,15 @@ Qed.
 
 (* ---------- three directories of a tree ---------- *)
 Section View.
-Variables F S B : dir.
-Hypothesis HFS : F <> S.
+Variables F G B : dir.
+Hypothesis HFS : F <> G.
 Hypothesis HFB : F <> B.
-Hypothesis HSB : S <> B.
+Hypothesis HSB : G <> B.
 Variable t0 : tree.
 
 Definition tview (t : tree) (cF cS cB : dcontent) : Prop :=
-  t !! F = Some cF /\ t !! S = Some cS /\ t !! B = Some cB /\
-  (forall x, x <> F -> x <> S -> x <> B -> t !! x = t0 !! x).
+  t !! F = Some cF /\ t !! G = Some cS /\ t !! B = Some cB /\
+  (forall x, x <> F -> x <> G -> x <> B -> t !! x = t0 !! x).
 
 Ltac view_solve :=
   repeat split; try (intros x Hx1 Hx2 Hx3);
@@ -44,7 +44,7 @@ Proof.
 Qed.
 Lemma rename_SF t cF cS cB n f :
   tview t cF cS cB -> cS !! n = Some f ->
-  exists t', rename_tree S n F n t = Some t' /\ tview t' (<[n := f]> cF) (delete n cS) cB.
+  exists t', rename_tree G n F n t = Some t' /\ tview t' (<[n := f]> cF) (delete n cS) cB.
 Proof.
   intros (HF & HS & HB & Hfr) Hn. eexists. split.
   - unfold rename_tree. rewrite HS, Hn. cbv zeta. rewrite lookup_insert_ne by congruence. rewrite HF. reflexivity.
@@ -73,12 +73,16 @@ Lemma sync_dir_spec d w :
   (out_err (sync_dir pl d w) <> None -> is_Some (wt w !! d) -> pl (dcnt w) = true) /\
   (forall m, out_err (sync_dir pl d w) = Some m -> In (PDir d) m).
 Proof.
-  unfold sync_dir, dcall, dcallm. destruct (pl (dcnt w)) eqn:Hp; cbn.
-  - repeat split; try congruence. intros m [= <-]. left. reflexivity.
-  - destruct (wt w !! d) eqn:Hd; cbn; repeat split; try congruence.
-    + intros _ [x Hx]. discriminate.
-    + intros [x Hx]. discriminate.
-    + intros m [= <-]. left. reflexivity.
+  unfold sync_dir, dcall, dcallm, dcalld. destruct (pl (dcnt w)) eqn:Hp; cbn.
+  - split; [reflexivity|]. split; [reflexivity|]. split; [congruence|]. split; [reflexivity|].
+    intros m [= <-]. left. reflexivity.
+  - destruct (wt w !! d) eqn:Hd; cbn.
+    + split; [reflexivity|]. split; [reflexivity|]. split; [reflexivity|]. split; [congruence|].
+      intros m Hm. discriminate.
+    + split; [reflexivity|]. split; [reflexivity|]. split; [|split].
+      * intros Hs. destruct Hs as [x Hx]. discriminate.
+      * intros _ Hs. destruct Hs as [x Hx]. discriminate.
+      * intros m [= <-]. left. reflexivity.
 Qed.
 
 (* syncCollectionDirectories: the tree is untouched; an error needs a fault (the directories exist) and
@@ -109,3 +113,556 @@ Proof.
         -- cbn in Hne. destruct (I4 Hne) as (j & Hj & Hpj). exists j. split; [lia|exact Hpj].
 Qed.
 End Prims.
+
+(* ---------- the commit loop and its rollback ---------- *)
+Section Commit.
+Variable pl : plan.
+Variables F G B : list positive.
+Hypothesis HFS : F <> G.
+Hypothesis HFB : F <> B.
+Hypothesis HSB : G <> B.
+Variable t0 : gmap (list positive) (gmap positive file).
+(* the contents of the target and of the staging directory when the commit starts *)
+Variables cF0 cS0 : gmap positive file.
+
+Notation tv := (tview F G B t0).
+
+(* what a record says about its name, in terms of the three directories *)
+Definition rec_ok (cF cS cB : gmap positive file) (r : crec) : Prop :=
+  cB !! r_name r = (if r_had r then cF0 !! r_name r else None) /\
+  (r_had r = true -> is_Some (cF0 !! r_name r)) /\
+  cF !! r_name r = (if r_comm r then cS0 !! r_name r else if r_had r then None else cF0 !! r_name r) /\
+  (r_comm r = true -> r_had r = false -> cF0 !! r_name r = None) /\
+  (r_comm r = true -> is_Some (cS0 !! r_name r)) /\
+  cS !! r_name r = (if r_comm r then None else cS0 !! r_name r).
+
+Definition untouched (cF cS cB : gmap positive file) (n : positive) : Prop :=
+  cF !! n = cF0 !! n /\ cB !! n = None /\ cS !! n = cS0 !! n.
+
+Definition inv (recs : list crec) (cF cS cB : gmap positive file) : Prop :=
+  NoDup (map r_name recs) /\ Forall (rec_ok cF cS cB) recs /\
+  (forall n, ~ In n (map r_name recs) -> untouched cF cS cB n).
+
+Definition agree_except (n : positive) (a b : gmap positive file) : Prop := forall k, k <> n -> a !! k = b !! k.
+
+Lemma agree_refl n a : agree_except n a a.
+Proof. intros k _. reflexivity. Qed.
+Lemma agree_delete n a : agree_except n (delete n a) a.
+Proof. intros k Hk. apply lookup_delete_ne. congruence. Qed.
+Lemma agree_insert n a f : agree_except n (<[n := f]> a) a.
+Proof. intros k Hk. apply lookup_insert_ne. congruence. Qed.
+Lemma agree_trans n a b c : agree_except n a b -> agree_except n b c -> agree_except n a c.
+Proof. intros H1 H2 k Hk. rewrite H1, H2 by exact Hk. reflexivity. Qed.
+
+Lemma rec_ok_frame n cF cS cB cF' cS' cB' r :
+  r_name r <> n -> agree_except n cF' cF -> agree_except n cS' cS -> agree_except n cB' cB ->
+  rec_ok cF cS cB r -> rec_ok cF' cS' cB' r.
+Proof.
+  intros Hn HF' HS' HB' (H1 & H2 & H3 & H4 & H5 & H6). unfold rec_ok.
+  rewrite HF', HS', HB' by exact Hn. repeat split; assumption.
+Qed.
+
+Lemma push_inv recs cF cS cB cF' cS' cB' n h c :
+  inv recs cF cS cB -> ~ In n (map r_name recs) ->
+  agree_except n cF' cF -> agree_except n cS' cS -> agree_except n cB' cB ->
+  rec_ok cF' cS' cB' (CRec n h c) ->
+  inv (CRec n h c :: recs) cF' cS' cB'.
+Proof.
+  intros (Hnd & Hall & Hun) Hn HF' HS' HB' Hok. split; [|split].
+  - cbn. apply NoDup_cons. split; [rewrite elem_of_list_In; exact Hn|exact Hnd].
+  - constructor; [exact Hok|]. rewrite Forall_forall in Hall |- *. intros r Hr.
+    eapply rec_ok_frame; [|exact HF'|exact HS'|exact HB'|apply Hall; exact Hr].
+    intros <-. apply Hn. apply elem_of_list_In. apply elem_of_list_fmap_1. exact Hr.
+  - intros k Hk. cbn in Hk. assert (k <> n) by (intros ->; apply Hk; left; reflexivity).
+    destruct (Hun k) as (U1 & U2 & U3); [intros Hin; apply Hk; right; exact Hin|].
+    unfold untouched. rewrite HF', HS', HB' by assumption. repeat split; assumption.
+Qed.
+
+(* one primitive, no fault / fault *)
+Lemma rename_ok d1 n1 d2 n2 w t' :
+  pl (dcnt w) = false -> rename_tree d1 n1 d2 n2 (wt w) = Some t' ->
+  exists tr, rename pl d1 n1 d2 n2 w = DDone tt (DW t' (S (dcnt w)) tr).
+Proof. intros Hp Hr. unfold rename, dcall, dcallm, dcalld. rewrite Hp, Hr. eexists. reflexivity. Qed.
+Lemma rename_fault d1 n1 d2 n2 w :
+  pl (dcnt w) = true ->
+  exists tr, rename pl d1 n1 d2 n2 w = DFail EIO [PFile d1 n1; PFile d2 n2] (DW (wt w) (S (dcnt w)) tr).
+Proof. intros Hp. unfold rename, dcall, dcallm, dcalld. rewrite Hp. eexists. reflexivity. Qed.
+
+Lemma lookup_file_view t cF cS cB n : tv t cF cS cB -> lookup_file t F n = cF !! n.
+Proof. intros (HF & _). unfold lookup_file. rewrite HF. reflexivity. Qed.
+
+Lemma view_exists t cF cS cB d : tv t cF cS cB -> In d [F; G; B] -> is_Some (t !! d).
+Proof.
+  intros (HF & HS & HB & _) [<-|[<-|[<-|[]]]]; eauto.
+Qed.
+
+(* syncs of two of the three directories: tree unchanged *)
+Lemma sync2_spec d1 d2 w cF cS cB :
+  tv (wt w) cF cS cB -> In d1 [F; G; B] -> In d2 [F; G; B] ->
+  wt (snd (sync_dirs pl [] [d1; d2] w)) = wt w /\
+  dcnt w <= dcnt (snd (sync_dirs pl [] [d1; d2] w)) /\
+  (quiet pl (dcnt w) -> fst (sync_dirs pl [] [d1; d2] w) = None) /\
+  (fst (sync_dirs pl [] [d1; d2] w) <> None ->
+     exists j, dcnt w <= j < dcnt (snd (sync_dirs pl [] [d1; d2] w)) /\ pl j = true).
+Proof.
+  intros Hv H1 H2. apply sync_dirs_spec. intros d [<-|[<-|[]]]; eapply view_exists; eauto.
+Qed.
+
+Lemma commit_core_spec names : forall recs w cF cS cB,
+  tv (wt w) cF cS cB -> inv recs cF cS cB -> NoDup names ->
+  (forall n, In n names -> ~ In n (map r_name recs)) ->
+  (forall n, In n names -> is_Some (cS0 !! n)) ->
+  exists cF' cS' cB',
+    tv (wt (snd (commit_core pl F G B names recs w))) cF' cS' cB' /\
+    inv (snd (fst (commit_core pl F G B names recs w))) cF' cS' cB' /\
+    dcnt w <= dcnt (snd (commit_core pl F G B names recs w)) /\
+    (fst (fst (commit_core pl F G B names recs w)) <> None ->
+       exists j, dcnt w <= j < dcnt (snd (commit_core pl F G B names recs w)) /\ pl j = true) /\
+    (fst (fst (commit_core pl F G B names recs w)) = None ->
+       (forall n, In n names -> cF' !! n = cS0 !! n) /\ (forall n, ~ In n names -> cF' !! n = cF !! n)).
+Proof.
+  induction names as [|n ns IH]; intros recs w cF cS cB Hv Hinv Hnd Hfresh Hst.
+  - cbn. exists cF, cS, cB. split; [exact Hv|]. split; [exact Hinv|]. split; [lia|]. split; [congruence|].
+    intros _. split; [intros n []|reflexivity].
+  - assert (Hn : ~ In n (map r_name recs)) by (apply Hfresh; left; reflexivity).
+    destruct Hinv as (Hrnd & Hall & Hun). pose proof (Hun n Hn) as (U1 & U2 & U3).
+    assert (Hinv : inv recs cF cS cB) by (split; [exact Hrnd|split; [exact Hall|exact Hun]]).
+    apply NoDup_cons in Hnd. destruct Hnd as (Hnns & Hnd). rewrite elem_of_list_In in Hnns.
+    destruct (Hst n) as [g Hg]; [left; reflexivity|].
+    (* the tail of the loop body, shared by both lstat outcomes *)
+    assert (Hstep : forall (had : bool) (w1 : dworld) (cF1 cB1 : gmap positive file),
+      tv (wt w1) cF1 cS cB1 -> dcnt w <= dcnt w1 ->
+      agree_except n cF1 cF -> agree_except n cB1 cB ->
+      (forall c : bool, rec_ok (if c then <[n := g]> cF1 else cF1) (if c then delete n cS else cS) cB1 (CRec n had c)) ->
+      forall step : oerr * list crec * dworld,
+      step = (match rename pl G n F n w1 with
+              | DFail _ m w2 => (Some m, CRec n had false :: recs, w2)
+              | DDone _ w2 =>
+                match sync_dirs pl [] [G; F] w2 with
+                | (Some m, w3) => (Some m, CRec n had true :: recs, w3)
+                | (None, w3) => commit_core pl F G B ns (CRec n had true :: recs) w3
+                end
+              end) ->
+      exists cF' cS' cB',
+        tv (wt (snd step)) cF' cS' cB' /\ inv (snd (fst step)) cF' cS' cB' /\ dcnt w <= dcnt (snd step) /\
+        (fst (fst step) <> None -> exists j, dcnt w <= j < dcnt (snd step) /\ pl j = true) /\
+        (fst (fst step) = None ->
+           (forall k, In k (n :: ns) -> cF' !! k = cS0 !! k) /\ (forall k, ~ In k (n :: ns) -> cF' !! k = cF !! k))).
+    { intros had w1 cF1 cB1 Hv1 Hle HaF HaB Hrec step ->.
+      destruct (pl (dcnt w1)) eqn:Hp1.
+      - destruct (rename_fault G n F n w1 Hp1) as (tr & ->). cbn [fst snd wt dcnt].
+        exists cF1, cS, cB1. split; [exact Hv1|]. split.
+        { eapply push_inv; [exact Hinv|exact Hn|exact HaF|apply agree_refl|exact HaB|apply (Hrec false)]. }
+        split; [lia|]. split; [|congruence]. intros _. exists (dcnt w1). split; [lia|exact Hp1].
+      - assert (HcS : cS !! n = Some g) by (rewrite U3; exact Hg).
+        destruct (rename_SF F G B HFS HFB HSB t0 (wt w1) cF1 cS cB1 n g Hv1 HcS) as (t2 & Hr2 & Hv2).
+        destruct (rename_ok G n F n w1 t2 Hp1 Hr2) as (tr & ->).
+        set (w2 := DW t2 (S (dcnt w1)) tr).
+        destruct (sync2_spec G F w2 _ _ _ Hv2) as (Ht3 & Hc3 & _ & Hf3); [right; left; reflexivity|left; reflexivity|].
+        destruct (sync_dirs pl [] [G; F] w2) as [[m|] w3] eqn:Es; cbn [fst snd] in *.
+        + exists (<[n := g]> cF1), (delete n cS), cB1. rewrite Ht3. split; [exact Hv2|]. split.
+          { eapply push_inv; [exact Hinv|exact Hn| | |exact HaB|apply (Hrec true)].
+            - eapply agree_trans; [apply agree_insert|exact HaF].
+            - apply agree_delete. }
+          split; [unfold w2 in Hc3; cbn in Hc3; lia|]. split; [|congruence]. intros _.
+          destruct Hf3 as (j & Hj & Hpj); [congruence|]. exists j. split; [unfold w2 in Hj; cbn in Hj; lia|exact Hpj].
+        + assert (Hinv2 : inv (CRec n had true :: recs) (<[n := g]> cF1) (delete n cS) cB1).
+          { eapply push_inv; [exact Hinv|exact Hn| | |exact HaB|apply (Hrec true)].
+            - eapply agree_trans; [apply agree_insert|exact HaF].
+            - apply agree_delete. }
+          destruct (IH (CRec n had true :: recs) w3 (<[n := g]> cF1) (delete n cS) cB1) as (cF' & cS' & cB' & I1 & I2 & I3 & I4 & I5).
+          { rewrite Ht3. exact Hv2. }
+          { exact Hinv2. }
+          { exact Hnd. }
+          { intros k Hk [Hk'|Hk']; [cbn in Hk'; subst k; exact (Hnns Hk)|]. apply (Hfresh k); [right; exact Hk|exact Hk']. }
+          { intros k Hk. apply Hst. right. exact Hk. }
+          exists cF', cS', cB'. split; [exact I1|]. split; [exact I2|].
+          split; [unfold w2 in Hc3; cbn in Hc3; lia|]. split.
+          * intros Hne. destruct (I4 Hne) as (j & Hj & Hpj). exists j. split; [unfold w2 in Hc3; cbn in Hc3; lia|exact Hpj].
+          * intros He. destruct (I5 He) as (J1 & J2). split.
+            -- intros k [<-|Hk]; [|apply J1; exact Hk]. rewrite J2 by exact Hnns. rewrite lookup_insert. symmetry. exact Hg.
+            -- intros k Hk. rewrite J2 by (intros Hk'; apply Hk; right; exact Hk').
+               rewrite lookup_insert_ne by (intros ->; apply Hk; left; reflexivity).
+               apply HaF. intros ->. apply Hk. left. reflexivity. }
+    cbn [commit_core]. unfold lstat, dcall, dcallm, dcalld. destruct (pl (dcnt w)) eqn:Hp0.
+    + (* lstat faulted *)
+      cbn [fst snd wt dcnt]. exists cF, cS, cB. split; [exact Hv|]. split.
+      { eapply push_inv; [exact Hinv|exact Hn|apply agree_refl|apply agree_refl|apply agree_refl|].
+        unfold rec_ok; cbn. repeat split; try congruence. }
+      split; [lia|]. split; [|congruence]. intros _. exists (dcnt w). split; [lia|exact Hp0].
+    + rewrite (lookup_file_view _ _ _ _ _ Hv). destruct (cF !! n) as [f|] eqn:HcF.
+      * (* the target exists: back it up *)
+        set (w1 := DW (wt w) (S (dcnt w)) _).
+        assert (Hc1 : dcnt w1 = S (dcnt w)) by reflexivity.
+        assert (Hv1 : tv (wt w1) cF cS cB) by exact Hv.
+        destruct (pl (dcnt w1)) eqn:Hp1.
+        -- destruct (rename_fault F n B n w1 Hp1) as (tr & ->). cbn [fst snd wt dcnt].
+           exists cF, cS, cB. split; [exact Hv|]. split.
+           { eapply push_inv; [exact Hinv|exact Hn|apply agree_refl|apply agree_refl|apply agree_refl|].
+             unfold rec_ok; cbn. repeat split; try congruence. }
+           split; [lia|]. split; [|congruence]. intros _. exists (S (dcnt w)). split; [lia|exact Hp1].
+        -- destruct (rename_FB F G B HFS HFB HSB t0 (wt w1) cF cS cB n f Hv1 HcF) as (t2 & Hr2 & Hv2).
+           destruct (rename_ok F n B n w1 t2 Hp1 Hr2) as (tr & ->).
+           set (w2 := DW t2 (S (dcnt w1)) tr).
+           destruct (sync2_spec F B w2 _ _ _ Hv2) as (Ht3 & Hc3 & _ & Hf3); [left; reflexivity|right; right; left; reflexivity|].
+           assert (Hf0 : cF0 !! n = Some f) by congruence.
+           destruct (sync_dirs pl [] [F; B] w2) as [[m|] w3] eqn:Es; cbn [fst snd] in *.
+           ++ exists (delete n cF), cS, (<[n := f]> cB). rewrite Ht3. split; [exact Hv2|]. split.
+              { eapply push_inv; [exact Hinv|exact Hn|apply agree_delete|apply agree_refl|apply agree_insert|].
+                unfold rec_ok; cbn. rewrite lookup_insert, lookup_delete, Hf0.
+                repeat split; try congruence; eauto. }
+              split; [unfold w2, w1 in Hc3; cbn in Hc3; lia|]. split; [|congruence]. intros _.
+              destruct Hf3 as (j & Hj & Hpj); [congruence|]. exists j. split; [unfold w2, w1 in Hj; cbn in Hj; lia|exact Hpj].
+           ++ eapply (Hstep true w3 (delete n cF) (<[n := f]> cB)).
+              ** rewrite Ht3. exact Hv2.
+              ** unfold w2, w1 in Hc3; cbn in Hc3; lia.
+              ** apply agree_delete.
+              ** apply agree_insert.
+              ** intros c. unfold rec_ok; cbn. rewrite !lookup_insert, Hf0.
+                 destruct c; [rewrite lookup_insert, lookup_delete|rewrite lookup_delete];
+                   repeat split; try congruence; eauto.
+              ** reflexivity.
+      * (* no such target *)
+        set (w1 := DW (wt w) (S (dcnt w)) _).
+        assert (Hc1 : dcnt w1 = S (dcnt w)) by reflexivity.
+        assert (Hf0 : cF0 !! n = None) by congruence.
+        eapply (Hstep false w1 cF cB).
+        -- exact Hv.
+        -- unfold w1; cbn; lia.
+        -- apply agree_refl.
+        -- apply agree_refl.
+        -- intros c. unfold rec_ok; cbn. rewrite U2, Hf0.
+           destruct c; [rewrite lookup_insert, lookup_delete|rewrite HcF, U3];
+             repeat split; try congruence; eauto.
+        -- reflexivity.
+Qed.
+End Commit.
+
+(* ---------- os.RemoveAll ---------- *)
+Lemma under_refl (d : list positive) : under d d = true.
+Proof. unfold under. apply bool_decide_eq_true. reflexivity. Qed.
+Lemma remove_all_lookup (d : list positive) (t : gmap (list positive) (gmap positive file)) (x : list positive) :
+  remove_all_tree d t !! x = if under d x then None else t !! x.
+Proof.
+  unfold remove_all_tree. destruct (under d x) eqn:E.
+  - apply map_filter_lookup_None. right. intros c _ Hc. cbn in Hc. congruence.
+  - destruct (t !! x) as [c|] eqn:Hx.
+    + apply map_filter_lookup_Some. split; [exact Hx|exact E].
+    + apply map_filter_lookup_None. left. exact Hx.
+Qed.
+
+Section Rollback.
+Variable pl : plan.
+Variables F G B : list positive.
+Hypothesis HFS : F <> G.
+Hypothesis HFB : F <> B.
+Hypothesis HSB : G <> B.
+Variable t0 : gmap (list positive) (gmap positive file).
+Variables cF0 cS0 : gmap positive file.
+Notation tv := (tview F G B t0).
+Notation rok := (rec_ok cF0 cS0).
+
+Lemma sync_dirs_wt ds : forall seen w, wt (snd (sync_dirs pl seen ds w)) = wt w.
+Proof.
+  induction ds as [|d ds IH]; intros seen w; cbn [sync_dirs]; [reflexivity|].
+  destruct (bool_decide (d ∈ seen)); [apply IH|].
+  specialize (IH (d :: seen) (dworld_of (sync_dir pl d w))).
+  destruct (sync_dirs pl (d :: seen) ds (dworld_of (sync_dir pl d w))) as [e w'] eqn:E. cbn [snd] in *.
+  rewrite IH. apply sync_dir_spec.
+Qed.
+
+Lemma rollback_loop_quiet recs : forall w cF cS cB,
+  tv (wt w) cF cS cB -> NoDup (map r_name recs) -> Forall (rok cF cS cB) recs -> quiet pl (dcnt w) ->
+  exists cF' cB',
+    fst (rollback_loop pl F B recs w) = None /\
+    tv (wt (snd (rollback_loop pl F B recs w))) cF' cS cB' /\
+    dcnt w <= dcnt (snd (rollback_loop pl F B recs w)) /\
+    (forall n, In n (map r_name recs) -> cF' !! n = cF0 !! n /\ cB' !! n = None) /\
+    (forall n, ~ In n (map r_name recs) -> cF' !! n = cF !! n /\ cB' !! n = cB !! n).
+Proof.
+  induction recs as [|r rs IH]; intros w cF cS cB Hv Hnd Hall Hq.
+  - cbn. exists cF, cB. split; [reflexivity|]. split; [exact Hv|]. split; [lia|]. split; [intros n []|].
+    intros n _. split; reflexivity.
+  - cbn [rollback_loop]. cbn [map] in Hnd. apply NoDup_cons in Hnd. destruct Hnd as (Hr & Hnd).
+    rewrite elem_of_list_In in Hr.
+    inversion Hall as [|r' rs' Hok Hall']; subst r' rs'.
+    destruct Hok as (K1 & K2 & K3 & K4 & K5 & K6). set (n := r_name r) in *.
+    (* step 1: remove the committed file *)
+    assert (H1 : exists w1 cF1,
+      (if r_comm r then (remove_err (remove pl F n w), dworld_of (remove pl F n w)) else (None, w)) = (None, w1) /\
+      tv (wt w1) cF1 cS cB /\ dcnt w <= dcnt w1 <= S (dcnt w) /\ agree_except n cF1 cF /\
+      cF1 !! n = (if r_comm r then None else cF !! n)).
+    { destruct (r_comm r) eqn:Ec.
+      - unfold remove, dcall, dcallm, dcalld. rewrite (quiet_here _ _ Hq). destruct Hv as (HF & HS & HB & Hfr). rewrite HF.
+        destruct (K5 eq_refl) as [g Hg]. rewrite K3, Hg. cbn.
+        eexists _, (delete n cF). split; [reflexivity|]. cbn [wt dcnt]. split.
+        + apply remove_F; assumption || (repeat split; assumption).
+        + split; [lia|]. split; [apply agree_delete|apply lookup_delete].
+      - exists w, cF. split; [reflexivity|]. split; [exact Hv|]. split; [lia|]. split; [apply agree_refl|reflexivity]. }
+    destruct H1 as (w1 & cF1 & -> & Hv1 & Hc1 & Ha1 & Hn1).
+    assert (Hq1 : quiet pl (dcnt w1)) by (eapply quiet_mono; [exact Hq|lia]).
+    (* step 2: restore the original *)
+    assert (H2 : exists w2 cF2 cB2,
+      (if r_had r then (out_err (rename pl B n F n w1), dworld_of (rename pl B n F n w1)) else (None, w1)) = (None, w2) /\
+      tv (wt w2) cF2 cS cB2 /\ dcnt w1 <= dcnt w2 /\ agree_except n cF2 cF /\ agree_except n cB2 cB /\
+      cF2 !! n = cF0 !! n /\ cB2 !! n = None).
+    { destruct (r_had r) eqn:Eh.
+      - destruct (K2 eq_refl) as [f Hf]. rewrite Hf in K1.
+        destruct (rename_BF F G B HFS HFB HSB t0 (wt w1) cF1 cS cB n f Hv1 K1) as (t2 & Hr2 & Hv2).
+        destruct (rename_ok pl B n F n w1 t2 (quiet_here _ _ Hq1) Hr2) as (tr & ->). cbn.
+        eexists _, _, _. split; [reflexivity|]. cbn [wt dcnt]. split; [exact Hv2|]. split; [lia|].
+        split; [eapply agree_trans; [apply agree_insert|exact Ha1]|]. split; [apply agree_delete|].
+        split; [rewrite lookup_insert; symmetry; exact Hf|apply lookup_delete].
+      - exists w1, cF1, cB. split; [reflexivity|]. split; [exact Hv1|]. split; [lia|]. split; [exact Ha1|].
+        split; [apply agree_refl|]. split; [|exact K1].
+        rewrite Hn1. destruct (r_comm r) eqn:Ec; [symmetry; apply K4; reflexivity|exact K3]. }
+    destruct H2 as (w2 & cF2 & cB2 & -> & Hv2 & Hc2 & Ha2 & Hb2 & Hn2 & Hm2).
+    destruct (IH w2 cF2 cS cB2) as (cF' & cB' & I1 & I2 & I3 & I4 & I5).
+    { exact Hv2. } { exact Hnd. }
+    { rewrite Forall_forall in Hall' |- *. intros r' Hr'.
+      eapply rec_ok_frame; [|exact Ha2|apply agree_refl|exact Hb2|apply Hall'; exact Hr'].
+      intros E. apply Hr. fold n. rewrite <- E. apply elem_of_list_In. apply elem_of_list_fmap_1. exact Hr'. }
+    { eapply quiet_mono; [exact Hq1|lia]. }
+    destruct (rollback_loop pl F B rs w2) as [e3 w3] eqn:E3. cbn [fst snd] in *. subst e3.
+    exists cF', cB'. split; [reflexivity|]. split; [exact I2|]. split; [lia|]. split.
+    + intros k [<-|Hk]; [|apply I4; exact Hk]. fold n. destruct (I5 n Hr) as (-> & ->). split; assumption.
+    + intros k Hk. cbn in Hk. assert (k <> n) by (intros ->; apply Hk; left; reflexivity).
+      destruct (I5 k) as (-> & ->); [intros Hk'; apply Hk; right; exact Hk'|].
+      split; [apply Ha2|apply Hb2]; assumption.
+Qed.
+
+(* no fault left: the rollback restores the target directory and removes the backup directory *)
+Lemma rollback_quiet recs w cF cS cB :
+  tv (wt w) cF cS cB -> inv cF0 cS0 recs cF cS cB -> quiet pl (dcnt w) ->
+  under B F = false -> under B G = false -> (forall x, x <> B -> under B x = true -> t0 !! x = None) ->
+  fst (rollback pl F B recs w) = None /\
+  wt (snd (rollback pl F B recs w)) !! F = Some cF0 /\
+  wt (snd (rollback pl F B recs w)) !! G = Some cS /\
+  (forall x, x <> F -> x <> G -> wt (snd (rollback pl F B recs w)) !! x = if under B x then None else t0 !! x).
+Proof.
+  intros Hv (Hnd & Hall & Hun) Hq HuF HuG Hu0. unfold rollback.
+  destruct (rollback_loop_quiet recs w cF cS cB Hv Hnd Hall Hq) as (cF' & cB' & L1 & L2 & L3 & L4 & L5).
+  destruct (rollback_loop pl F B recs w) as [e w1] eqn:E1. cbn [fst snd] in *. subst e.
+  destruct (sync2_spec pl F G B t0 F B w1 cF' cS cB' L2) as (S1 & S2 & S3 & _);
+    [left; reflexivity|right; right; left; reflexivity|].
+  destruct (sync_dirs pl [] [F; B] w1) as [es w2] eqn:E2. cbn [fst snd] in *.
+  rewrite S3 by (eapply quiet_mono; [exact Hq|lia]). cbn [ejoin].
+  unfold remove_all, dcall, dcallm, dcalld. rewrite (quiet_here pl (dcnt w2)) by (eapply quiet_mono; [exact Hq|lia]).
+  set (w3 := DW _ _ _). pose proof (sync_dirs_wt [F] [] w3) as S4.
+  assert (Hcf : cF' = cF0).
+  { apply map_eq. intros k. destruct (in_dec Pos.eq_dec k (map r_name recs)) as [Hk|Hk].
+    - apply L4. exact Hk.
+    - destruct (L5 k Hk) as (-> & _). apply Hun. exact Hk. }
+  assert (Q : quiet pl (dcnt w3)) by (unfold w3; cbn; eapply quiet_mono; [exact Hq|lia]).
+  destruct (sync_dirs_spec pl [F] [] w3) as (_ & _ & S5 & _).
+  { intros d [<-|[]]. unfold w3; cbn. rewrite remove_all_lookup, HuF, S1. destruct L2 as (-> & _). eauto. }
+  destruct (sync_dirs pl [] [F] w3) as [e4 w4] eqn:E4. cbn [fst snd] in *.
+  split; [apply S5; exact Q|]. rewrite S4. unfold w3; cbn [wt]. rewrite S1.
+  destruct L2 as (VF & VS & VB & Vfr).
+  split; [rewrite remove_all_lookup, HuF, VF, Hcf; reflexivity|].
+  split; [rewrite remove_all_lookup, HuG; exact VS|].
+  intros x HxF HxG. rewrite remove_all_lookup. destruct (under B x) eqn:Eu; [reflexivity|].
+  apply Vfr; [exact HxF|exact HxG|]. intros ->. rewrite under_refl in Eu. discriminate.
+Qed.
+
+(* whatever fails: if the rollback returns an error and the backup directory is still there, the error names it;
+   if it returns nil the backup directory is gone *)
+Lemma rollback_names_backup recs w :
+  wt (snd (rollback pl F B recs w)) !! B <> None ->
+  exists m, fst (rollback pl F B recs w) = Some m /\ In (PDir B) m.
+Proof.
+  unfold rollback. destruct (rollback_loop pl F B recs w) as [e w1].
+  pose proof (sync_dirs_wt [F; B] [] w1) as S1.
+  destruct (sync_dirs pl [] [F; B] w1) as [es w2]. cbn [snd] in S1.
+  destruct (ejoin e es) as [m|].
+  - cbn. intros _. exists (m ++ [PDir B]). split; [reflexivity|]. apply in_or_app. right. left. reflexivity.
+  - unfold remove_all, dcall, dcallm, dcalld. destruct (pl (dcnt w2)).
+    + cbn. intros _. eexists. split; [reflexivity|]. left. reflexivity.
+    + set (w3 := DW _ _ _). pose proof (sync_dirs_wt [F] [] w3) as S4.
+      destruct (sync_dirs pl [] [F] w3) as [e4 w4]. cbn [fst snd] in *. rewrite S4. unfold w3; cbn [wt].
+      rewrite remove_all_lookup, under_refl. congruence.
+Qed.
+End Rollback.
+
+(* ---------- commitCollectionFonts / publishCheatSheets as a whole ---------- *)
+(* os.MkdirTemp returns a directory that did not exist (nor anything below it) *)
+Definition fresh_ok (freshd : gmap (list positive) (gmap positive file) -> list positive -> positive) : Prop :=
+  forall t p x, under (p ++ [freshd t p]) x = true -> t !! x = None.
+
+Section Batch.
+Variable pl : plan.
+Variable freshd : gmap (list positive) (gmap positive file) -> list positive -> positive.
+Hypothesis Hfresh : fresh_ok freshd.
+Variables F G : list positive.
+Variable names : list positive.
+Variable w : dworld.
+Variables cF0 cS0 : gmap positive file.
+Hypothesis HF : wt w !! F = Some cF0.
+Hypothesis HG : wt w !! G = Some cS0.
+Hypothesis HFG : F <> G.
+Hypothesis Hnd : NoDup names.
+Hypothesis Hstaged : forall n, In n names -> is_Some (cS0 !! n).
+
+Let B := F ++ [freshd (wt w) F].
+
+Lemma B_fresh x : under B x = true -> wt w !! x = None.
+Proof. apply Hfresh. Qed.
+Lemma B_none : wt w !! B = None.
+Proof. apply B_fresh. apply under_refl. Qed.
+Lemma B_ne_F : F <> B.
+Proof. intros E. pose proof B_none as H. rewrite <- E, HF in H. discriminate. Qed.
+Lemma B_ne_G : G <> B.
+Proof. intros E. pose proof B_none as H. rewrite <- E, HG in H. discriminate. Qed.
+Lemma B_not_over_F : under B F = false.
+Proof. destruct (under B F) eqn:E; [|reflexivity]. rewrite (B_fresh _ E) in HF. discriminate. Qed.
+Lemma B_not_over_G : under B G = false.
+Proof. destruct (under B G) eqn:E; [|reflexivity]. rewrite (B_fresh _ E) in HG. discriminate. Qed.
+
+Let w1 : dworld := DW (<[B := ∅]> (wt w)) (S (dcnt w)) (DEv DMkdirTemp (PDir B) (PDir F) None [] :: dtr w).
+
+Lemma view1 : tview F G B (wt w) (wt w1) cF0 cS0 ∅.
+Proof.
+  pose proof B_ne_F. pose proof B_ne_G. unfold w1; cbn [wt]. split; [|split; [|split]].
+  - rewrite lookup_insert_ne by congruence. exact HF.
+  - rewrite lookup_insert_ne by congruence. exact HG.
+  - apply lookup_insert.
+  - intros x _ _ Hx. apply lookup_insert_ne. congruence.
+Qed.
+Lemma inv1 : inv cF0 cS0 [] cF0 cS0 ∅.
+Proof.
+  split; [constructor|]. split; [constructor|]. intros n _. split; [reflexivity|]. split; [apply lookup_empty|reflexivity].
+Qed.
+
+Lemma mkdir_cases :
+  (pl (dcnt w) = true /\ exists tr, mkdir_temp pl freshd F w = DFail EIO [] (DW (wt w) (S (dcnt w)) tr)) \/
+  (pl (dcnt w) = false /\ mkdir_temp pl freshd F w = DDone B w1).
+Proof.
+  unfold mkdir_temp, dcallm, dcalld. destruct (pl (dcnt w)); [left|right].
+  - split; [reflexivity|]. eexists. reflexivity.
+  - split; [reflexivity|]. rewrite HF. reflexivity.
+Qed.
+
+Lemma core_spec :
+  exists cF' cS' cB',
+    tview F G B (wt w) (wt (snd (commit_core pl F G B names [] w1))) cF' cS' cB' /\
+    inv cF0 cS0 (snd (fst (commit_core pl F G B names [] w1))) cF' cS' cB' /\
+    dcnt w1 <= dcnt (snd (commit_core pl F G B names [] w1)) /\
+    (fst (fst (commit_core pl F G B names [] w1)) <> None ->
+       exists j, dcnt w1 <= j < dcnt (snd (commit_core pl F G B names [] w1)) /\ pl j = true) /\
+    (fst (fst (commit_core pl F G B names [] w1)) = None ->
+       (forall n, In n names -> cF' !! n = cS0 !! n) /\ (forall n, ~ In n names -> cF' !! n = cF0 !! n)).
+Proof.
+  apply (commit_core_spec pl F G B HFG B_ne_F B_ne_G (wt w) cF0 cS0 names [] w1 cF0 cS0 ∅).
+  - exact view1.
+  - exact inv1.
+  - exact Hnd.
+  - intros n _ [].
+  - exact Hstaged.
+Qed.
+
+(* finalize leaves the target directory alone *)
+Lemma finalize_F w2 cF cS cB :
+  tview F G B (wt w) (wt w2) cF cS cB ->
+  wt (snd (finalize pl F B w2)) !! F = Some cF /\
+  (fst (finalize pl F B w2) = None ->
+     wt (snd (finalize pl F B w2)) !! G = Some cS /\
+     forall x, x <> F -> x <> G -> wt (snd (finalize pl F B w2)) !! x = wt w !! x) /\
+  (wt (snd (finalize pl F B w2)) !! B <> None ->
+     exists m, fst (finalize pl F B w2) = Some m /\ In (PDir B) m).
+Proof.
+  intros (VF & VS & VB & Vfr). unfold finalize, remove_all, dcall, dcallm, dcalld. destruct (pl (dcnt w2)).
+  - cbn. split; [exact VF|]. split; [discriminate|]. intros _. eexists. split; [reflexivity|left; reflexivity].
+  - set (w3 := DW _ _ _). pose proof (sync_dirs_wt pl [F] [] w3) as S4.
+    destruct (sync_dirs pl [] [F] w3) as [e4 w4]. cbn [fst snd] in *. rewrite S4. unfold w3; cbn [wt].
+    split; [rewrite remove_all_lookup, B_not_over_F; exact VF|]. split.
+    + intros _. split; [rewrite remove_all_lookup, B_not_over_G; exact VS|].
+      intros x HxF HxG. rewrite remove_all_lookup. destruct (under B x) eqn:Eu.
+      * symmetry. apply B_fresh. exact Eu.
+      * apply Vfr; [exact HxF|exact HxG|]. intros ->. rewrite under_refl in Eu. discriminate.
+    + rewrite remove_all_lookup, under_refl. congruence.
+Qed.
+
+(* 1. every target is published whenever the operation says so; nil error means published *)
+Lemma commit_batch_publishes v r w' :
+  commit_batch pl freshd v F G names w = (r, w') ->
+  (r_err r = None -> r_pub r = true) /\
+  (r_pub r = true ->
+     exists cF', wt w' !! F = Some cF' /\
+       (forall n, In n names -> cF' !! n = cS0 !! n) /\ (forall n, ~ In n names -> cF' !! n = cF0 !! n)) /\
+  (r_pub r = true -> r_err r = None -> r_warn r = [] ->
+     forall x, x <> F -> x <> G -> wt w' !! x = wt w !! x).
+Proof.
+  unfold commit_batch. destruct mkdir_cases as [(Hp & tr & ->)|(Hp & ->)].
+  - intros [= <- <-]. cbn. repeat split; discriminate.
+  - destruct core_spec as (cF' & cS' & cB' & C1 & C2 & C3 & C4 & C5).
+    destruct (commit_core pl F G B names [] w1) as [[ce recs] w2] eqn:Ec. cbn [fst snd] in *.
+    destruct ce as [m|].
+    + destruct (rollback pl F B recs w2) as [re w3]. intros [= <- <-]. cbn.
+      split; [destruct re; discriminate|]. split; discriminate.
+    + destruct (C5 eq_refl) as (P1 & P2).
+      destruct (finalize_F w2 cF' cS' cB' C1) as (Z1 & Z2 & _).
+      destruct (finalize pl F B w2) as [fe w3]. cbn [fst snd] in *.
+      assert (Hpub : exists cF'0, wt w3 !! F = Some cF'0 /\
+                (forall n, In n names -> cF'0 !! n = cS0 !! n) /\ (forall n, ~ In n names -> cF'0 !! n = cF0 !! n))
+        by (exists cF'; split; [exact Z1|split; assumption]).
+      destruct v, fe as [m|]; intros [= <- <-]; cbn; (split; [reflexivity || discriminate|]); (split; [intros _; exact Hpub|]);
+        try discriminate; intros _ _ _; apply Z2; reflexivity.
+Qed.
+
+(* 2. at most one injected failure: not published => everything is as before, except that files have left
+   the staging directory (the callers remove it) *)
+Lemma commit_batch_restores v r w' :
+  amo pl -> commit_batch pl freshd v F G names w = (r, w') -> r_pub r = false ->
+  r_err r <> None /\ forall x, x <> G -> wt w' !! x = wt w !! x.
+Proof.
+  intros Hamo. unfold commit_batch. destruct mkdir_cases as [(Hp & tr & ->)|(Hp & ->)].
+  - intros [= <- <-] _. cbn. split; [discriminate|reflexivity].
+  - destruct core_spec as (cF' & cS' & cB' & C1 & C2 & C3 & C4 & C5).
+    destruct (commit_core pl F G B names [] w1) as [[ce recs] w2] eqn:Ec. cbn [fst snd] in *.
+    destruct ce as [m|].
+    + destruct C4 as (j & Hj & Hpj); [discriminate|].
+      assert (Hq : quiet pl (dcnt w2)) by (eapply amo_quiet_lt; [exact Hamo|exact Hpj|lia]).
+      destruct (rollback_quiet pl F G B HFG B_ne_F B_ne_G (wt w) cF0 cS0 recs w2 cF' cS' cB' C1 C2 Hq
+                  B_not_over_F B_not_over_G) as (R1 & R2 & R3 & R4).
+      { intros x _ Hx. apply B_fresh. exact Hx. }
+      destruct (rollback pl F B recs w2) as [re w3]. cbn [fst snd] in *. intros [= <- <-] _. cbn.
+      split; [destruct re; discriminate|]. intros x HxG.
+      destruct (decide (x = F)) as [->|HxF]; [rewrite R2, HF; reflexivity|].
+      rewrite R4 by assumption. destruct (under B x) eqn:Eu; [symmetry; apply B_fresh; exact Eu|reflexivity].
+    + destruct (finalize pl F B w2) as [fe w3]. destruct v, fe; intros [= <- <-]; cbn; discriminate.
+Qed.
+
+(* 3. whatever fails: a backup directory that is still there is named by the error or by a warning *)
+Lemma commit_batch_names_backup v r w' :
+  commit_batch pl freshd v F G names w = (r, w') -> wt w' !! B <> None ->
+  (exists m, r_err r = Some m /\ In (PDir B) m) \/ (exists m, In m (r_warn r) /\ In (PDir B) m).
+Proof.
+  unfold commit_batch. destruct mkdir_cases as [(Hp & tr & ->)|(Hp & ->)].
+  - intros [= <- <-]. cbn. intros Hn. exfalso. apply Hn. exact B_none.
+  - destruct core_spec as (cF' & cS' & cB' & C1 & C2 & C3 & C4 & C5).
+    destruct (commit_core pl F G B names [] w1) as [[ce recs] w2] eqn:Ec. cbn [fst snd] in *.
+    destruct ce as [m|].
+    + pose proof (rollback_names_backup pl F B recs w2) as Hr.
+      destruct (rollback pl F B recs w2) as [re w3]. cbn [fst snd] in *. intros [= <- <-] Hn. cbn.
+      destruct (Hr Hn) as (m' & -> & Hin). left. eexists. split; [reflexivity|]. apply in_or_app. right. exact Hin.
+    + destruct (finalize_F w2 cF' cS' cB' C1) as (_ & _ & Z3).
+      destruct (finalize pl F B w2) as [fe w3]. cbn [fst snd] in *.
+      destruct v, fe as [m|]; intros [= <- <-] Hn; cbn; destruct (Z3 Hn) as (m' & Hm' & Hin); try discriminate;
+        injection Hm' as <-.
+      * right. exists m. split; [left; reflexivity|exact Hin].
+      * left. exists m. split; [reflexivity|exact Hin].
+Qed.
+End Batch.
+
+(* the concrete directory-name supply used by the extracted model is fresh *)
+Lemma fresh_child_ok : fresh_ok fresh_child.
+Proof.
+  intros t p x Hu. unfold under in Hu. apply bool_decide_eq_true in Hu. destruct Hu as [k ->].
+  destruct (t !! ((p ++ [fresh_child t p]) ++ k)) as [c|] eqn:E; [|reflexivity]. exfalso.
+  apply elem_of_map_to_list in E. apply elem_of_list_In in E.
+  apply (in_map (fun kv => pmax_dir (fst kv))) in E. cbn [fst] in E.
+  apply pmax_list_ge in E.
+  assert (Hc : (fresh_child t p <= pmax_dir ((p ++ [fresh_child t p]) ++ k))%positive).
+  { apply (pmax_list_ge ((p ++ [fresh_child t p]) ++ k)). apply in_or_app. left. apply in_or_app. right. left. reflexivity. }
+  unfold fresh_child in Hc at 1. unfold pmax_list in E. lia.
+Qed.
